@@ -1,8 +1,148 @@
-//! C11 correspondence streams (stub).
-use crate::util::Opts;
+//! C11: no guest-controlled bus access can crash the emulator. Every (header config, MBC register prefix, access kind)
+//! sweep runs in a re-exec'd child process; a dead child is bisected down to the first failing access.
+//! c11 type=T rom=R ram=M regs=a:v;... kind=rd|wr|rdw|wrw set=<b|all> | died=<none|index:addr:signal> dig=<digest of results> img=<digest of the full read image afterwards>
+use crate::mem::{memory_read_byte, memory_read_word, memory_write_byte, memory_write_word, MemoryAreas};
+use crate::roms::*;
+use crate::util::{Opts, Rng};
 use std::io::Write;
+use std::process::{Command, Stdio};
 
-pub fn run(sub: &str, _opts: &Opts, _w: &mut dyn Write) {
-  eprintln!("stream c11.{} not implemented", sub);
-  std::process::exit(2);
+pub const REG_PREFIXES: [&[(u16, u8)]; 12] = [
+  &[],
+  &[(0x2000, 0x00)],
+  &[(0x2000, 0x1f)],
+  &[(0x2000, 0x7f)],
+  &[(0x2000, 0xff), (0x4000, 0x03)],
+  &[(0x4000, 0x03)],
+  &[(0x6000, 0x01), (0x4000, 0x03), (0x2000, 0x00)],
+  &[(0x6000, 0x01), (0x4000, 0x02), (0x2000, 0x7f)],
+  &[(0x6000, 0x01), (0x4000, 0x01)],
+  &[(0x0000, 0x0a), (0x4000, 0x03), (0x6000, 0x01)],
+  &[(0x2000, 0x20), (0x4000, 0x02)],
+  &[(0x3fff, 0x55), (0x5fff, 0xfe), (0x7fff, 0xff)],
+];
+
+pub fn addr_set(all: bool, seed: u64) -> Vec<u16> {
+  if all {
+    // writes to 0x0000..0x7FFF come last so that the register prefix stays in force for the RAM/IO part
+    let mut v: Vec<u16> = (0x8000u32..0x10000).map(|a| a as u16).collect();
+    v.extend((0u32..0x8000).map(|a| a as u16));
+    v
+  } else {
+    let mut v: Vec<u16> = BOUNDARY.iter().cloned().filter(|a| *a >= 0x8000).collect();
+    let mut rng = Rng::new(seed ^ 0xadd5);
+    for _ in 0..200 { v.push(0x8000 | rng.u16()); }
+    v.extend(BOUNDARY.iter().cloned().filter(|a| *a < 0x8000));
+    for _ in 0..56 { v.push(rng.u16() & 0x7fff); }
+    v
+  }
+}
+
+fn wv(a: u16) -> u8 { (a as u32 * 7 + 3) as u8 }
+fn wv16(a: u16) -> u16 { (a as u32 * 257 + 1) as u16 }
+
+pub const KINDS: [&str; 4] = ["rd", "wr", "rdw", "wrw"];
+
+fn sweep(p: *mut MemoryAreas, kind: &str, addrs: &[u16]) -> u64 {
+  let mut h = FNV0;
+  for &a in addrs.iter() {
+    match kind {
+      "rd" => { h = fnv(h, memory_read_byte(p, a)); },
+      "wr" => { memory_write_byte(p, a, wv(a)); },
+      "rdw" => { let v = memory_read_word(p, a); h = fnv(fnv(h, v as u8), (v >> 8) as u8); },
+      _ => { memory_write_word(p, a, wv16(a)); },
+    }
+  }
+  h
+}
+
+/// child: runs sweeps `from..` (or only sweep `only`, accesses [0, upto)) of one header configuration, each on a
+/// fresh MemoryAreas; prints `BEGIN i` before and `END i dig img` after each sweep
+pub fn child(opts: &Opts) {
+  let t = opts.get_usize("type", 0) as u8; let r = opts.get_usize("rom", 0) as u8; let m = opts.get_usize("ram", 0) as u8;
+  let all = opts.get("set").map(|s| s == "all").unwrap_or(false);
+  let addrs = addr_set(all, opts.seed);
+  let nsweeps = REG_PREFIXES.len() * KINDS.len();
+  let (lo, hi, upto) = match opts.get("only") {
+    Some(o) => { let i: usize = o.parse().unwrap(); (i, i + 1, opts.get_usize("upto", addrs.len()).min(addrs.len())) },
+    None => (opts.get_usize("from", 0), nsweeps, addrs.len()),
+  };
+  let out = std::io::stdout();
+  for i in lo..hi {
+    let (ri, kind) = (i / KINDS.len(), KINDS[i % KINDS.len()]);
+    { let mut o = out.lock(); writeln!(o, "BEGIN {}", i).unwrap(); o.flush().unwrap(); }
+    let mut mem = mk_mem(t, r, m, &[]);
+    let p = &mut mem as *mut MemoryAreas;
+    for (a, v) in REG_PREFIXES[ri].iter() { memory_write_byte(p, *a, *v); }
+    let h = sweep(p, kind, &addrs[..upto]);
+    let (ds, _) = crate::s_c10::image_digests(p);
+    let mut img = FNV0;
+    for d in ds { for k in 0..8 { img = fnv(img, (d >> (8 * k)) as u8); } }
+    { let mut o = out.lock(); writeln!(o, "END {} dig={} img={}", i, h, img).unwrap(); o.flush().unwrap(); }
+  }
+}
+
+/// runs a child; returns (completed sweeps: index -> "dig=.. img=..", sweep in progress at death, exit description)
+fn spawn(exe: &std::path::Path, t: u8, r: u8, m: u8, set: &str, seed: u64, extra: &[String]) -> (Vec<(usize, String)>, Option<usize>, String) {
+  let mut c = Command::new(exe);
+  c.arg("c11.child").arg("--type").arg(t.to_string()).arg("--rom").arg(r.to_string()).arg("--ram").arg(m.to_string())
+    .arg("--set").arg(set).arg("--seed").arg(seed.to_string()).args(extra).env("RUST_BACKTRACE", "0");
+  let out = c.stdin(Stdio::null()).stderr(Stdio::null()).output().unwrap();
+  let so = String::from_utf8_lossy(&out.stdout).to_string();
+  let mut done = Vec::new();
+  let mut open: Option<usize> = None;
+  for l in so.lines() {
+    let mut it = l.splitn(3, ' ');
+    match (it.next(), it.next(), it.next()) {
+      (Some("BEGIN"), Some(i), _) => open = i.parse().ok(),
+      (Some("END"), Some(i), Some(rest)) => { done.push((i.parse().unwrap(), rest.to_string())); open = None; },
+      _ => (),
+    }
+  }
+  use std::os::unix::process::ExitStatusExt;
+  let why = if out.status.success() { String::from("ok") } else {
+    match out.status.signal() { Some(s) => format!("sig{}", s), None => format!("exit{}", out.status.code().unwrap_or(-1)) } };
+  (done, open, why)
+}
+
+pub fn run(sub: &str, opts: &Opts, w: &mut dyn Write) {
+  if sub == "child" { child(opts); return; }
+  let exe = std::env::current_exe().unwrap();
+  let (shard, nshards) = opts.shard();
+  let set = if opts.thorough { "all" } else { "b" };
+  let types: Vec<u8> = if opts.thorough { TYPES.to_vec() } else { vec![0x00, 0x01, 0x03, 0x11, 0x13] };
+  let roms: Vec<u8> = if opts.thorough { ROM_CODES.to_vec() } else { vec![0, 1, 4, 6, 0x52] };
+  let addrs = addr_set(opts.thorough, opts.seed);
+  let nsweeps = REG_PREFIXES.len() * KINDS.len();
+  let mut idx = 0usize;
+  for &t in types.iter() { for &r in roms.iter() { for &m in RAM_CODES.iter() {
+    idx += 1;
+    if idx % nshards != shard { continue; }
+    let mut results: Vec<Option<String>> = vec![None; nsweeps];
+    let mut from = 0usize;
+    while from < nsweeps {
+      let (done, open, why) = spawn(&exe, t, r, m, set, opts.seed, &[String::from("--from"), from.to_string()]);
+      for (i, s) in done { results[i] = Some(format!("died=none {}", s)); }
+      match open {
+        Some(i) => {
+          // bisect the dying sweep: smallest number of accesses that kills the child
+          let (mut lo, mut hi) = (0usize, addrs.len());
+          while hi - lo > 1 {
+            let mid = (lo + hi) / 2;
+            let (d, _, _) = spawn(&exe, t, r, m, set, opts.seed, &[String::from("--only"), i.to_string(), String::from("--upto"), mid.to_string()]);
+            if d.len() == 1 { lo = mid; } else { hi = mid; }
+          }
+          results[i] = Some(format!("died={}:{}:{} dig=0 img=0", hi - 1, addrs[hi - 1], why));
+          from = i + 1;
+        },
+        None => { from = nsweeps; },
+      }
+    }
+    for i in 0..nsweeps {
+      let (ri, kind) = (i / KINDS.len(), KINDS[i % KINDS.len()]);
+      let regs: Vec<String> = REG_PREFIXES[ri].iter().map(|(a, v)| format!("{}:{}", a, v)).collect();
+      writeln!(w, "c11 type={} rom={} ram={} regs={} kind={} set={} seed={} | {}", t, r, m, regs.join(";"), kind, set, opts.seed,
+        results[i].clone().unwrap_or_else(|| String::from("died=unknown dig=0 img=0"))).unwrap();
+    }
+  }}}
 }
